@@ -131,7 +131,10 @@ def compare_parser(res, model, impl, gr, text, kind):
     mt = model.lex(text)
     kinds = [t[0] for t in mt if t[0] not in gr.skip_types] + [0]
     mv = model.recognise(kinds)
-    iv, errs, _, _ = impl.parse_verdict(text)
+    if kind == "loop-shape":
+        iv, errs = impl.parse_verdict_fresh(text)      # the parser as a fresh process has it (no caches from earlier parses)
+    else:
+        iv, errs, _, _ = impl.parse_verdict(text)
     res.case("P|" + ",".join(map(str, kinds)), len(kinds) >= 6, None)
     res.count("parser:%s:%s" % (kind, "sentence" if mv else "non-sentence"))
     if mv != iv:
@@ -140,6 +143,43 @@ def compare_parser(res, model, impl, gr, text, kind):
                     {"check": "parser", "text": text, "kinds": kinds})
         return False
     return True
+
+
+def loop_shape_texts():
+    """every repetition count (0..3) of every comma-separated list of the grammar, with the optional separators present and
+    absent, and each with one comma dropped or doubled: what the parser does after a loop body has run depends on code (the
+    error handler's sync states) that one-iteration sentences never reach"""
+    H = "name s\nversion 1.0\n"
+    out = []
+    for npos in range(4):
+        for nkw in range(4):
+            for sep in (", ", " "):
+                pos = ", ".join(str(k + 1) for k in range(npos))
+                kw = ", ".join("k%d=%d" % (k, k) for k in range(nkw))
+                body = pos + (sep if npos and nkw else "") + kw
+                out.append(H + "Foo(%s) | 0\n" % body)
+                out.append(H + "Foo(%s) | 0\nFoo(%s) | 1\n" % (body, body))
+                if ", " in body:
+                    i = body.index(", ")
+                    out.append(H + "Foo(%s) | 0\n" % (body[:i] + " " + body[i + 2:]))
+                    j = body.rindex(", ")
+                    out.append(H + "Foo(%s) | 0\n" % (body[:j] + " " + body[j + 2:]))
+                    out.append(H + "Foo(%s) | 0\n" % (body[:j] + ", , " + body[j + 2:]))
+    for n in range(4):
+        items = ", ".join(str(k) for k in range(n))
+        nocomma = " ".join(str(k) for k in range(n))
+        for form in ("Foo(a=[%s]) | 0\n", "Foo | [%s]\n", "Foo | (%s)\n", "Foo | %s\n", "for int i in [%s]\n    Foo | i\n", "for int i in %s\n    Foo | i\n",
+                     "float array A =\n    %s\n", "float array A[%s] =\n    1\n", "float array A =\n    %s\n    %s\n".replace("%s\n    %s", "%s\n    1, 2"),
+                     "target d (%s)\nFoo | 0\n".replace("%s", "KW")):
+            if "KW" in form:
+                kws = ", ".join("k%d=%d" % (k, k) for k in range(n))
+                out.append("name s\nversion 1.0\n" + form.replace("KW", kws))
+                out.append("name s\nversion 1.0\n" + form.replace("KW", kws.replace(", ", " ")))
+                continue
+            out.append(H + form % items)
+            out.append(H + form % nocomma)
+            out.append(H + form % (items + ","))
+    return out
 
 
 def run(tier, seed):
@@ -202,6 +242,12 @@ def run(tier, seed):
                     res.oblige("model answers RECOG", "correspondence", False, str(e)[:200])
                     break
             if len(res.violations) > 5:
+                break
+        for text in loop_shape_texts():
+            try:
+                ok_p &= compare_parser(res, model, impl, gr, text, "loop-shape")
+            except fw.ModelError as e:
+                res.oblige("model answers RECOG", "correspondence", False, str(e)[:200])
                 break
         # every single-token deletion of the shortest covering sentences (a parser that silently skips a mandatory token accepts one of these)
         budget = 2500 if quick else 60000
